@@ -48,8 +48,8 @@ var durationT = reflect.TypeOf(time.Duration(0))
 func walk(t reflect.Type, prefix string, out *[]Leaf) {
 	for i := 0; i < t.NumField(); i++ {
 		f := t.Field(i)
-		tag := f.Tag.Get("mapstructure")
-		if tag == "" || !f.IsExported() {
+		tag, _, _ := strings.Cut(f.Tag.Get("mapstructure"), ",")
+		if tag == "" || tag == "-" || !f.IsExported() {
 			continue
 		}
 		ft := f.Type
@@ -95,7 +95,7 @@ func Get(cfg *config.AppConfig, key string) Val {
 		}
 		found := false
 		for i := 0; i < v.NumField(); i++ {
-			if v.Type().Field(i).Tag.Get("mapstructure") == part {
+			if name, _, _ := strings.Cut(v.Type().Field(i).Tag.Get("mapstructure"), ","); name == part {
 				v, found = v.Field(i), true
 				break
 			}
@@ -175,4 +175,14 @@ func WriteYAML(path string, key string, v Val) {
 func Reset() {
 	viper.Reset()
 	vh.Cleanup(viper.Reset)
+}
+
+// TempDir returns a fresh empty directory (removed at the end of the run).
+func TempDir() string {
+	d, err := os.MkdirTemp("", "vhcfg-*")
+	if err != nil {
+		panic(vh.Diverged{Why: err.Error()})
+	}
+	vh.Cleanup(func() { os.RemoveAll(d) })
+	return d
 }
